@@ -121,15 +121,40 @@ def _rc(s: str) -> str:
     return str(Seq(s).reverse_complement())
 
 
+class _Break(Exception):
+    pass
+
+
+class _Continue(Exception):
+    pass
+
+
+SAFE_STR_METHODS = {"replace", "format", "join", "upper", "lower", "strip", "lstrip", "rstrip", "translate", "split", "rsplit", "startswith",
+                    "endswith", "find", "rfind", "index", "count", "zfill", "center", "ljust", "rjust", "title", "capitalize", "swapcase",
+                    "partition", "rpartition", "isupper", "islower", "isalpha", "isdigit", "casefold", "splitlines", "expandtabs",
+                    "removeprefix", "removesuffix", "format_map", "encode"}
+SAFE_LIST_METHODS = {"append", "extend", "insert", "pop", "reverse", "index", "count", "copy", "sort", "remove", "clear"}
+SAFE_DICT_METHODS = {"get", "items", "keys", "values", "update", "setdefault", "pop", "copy"}
+SAFE_TUPLE_METHODS = {"index", "count"}
+PURE_BUILTINS = {"ord": ord, "chr": chr, "zip": zip, "dict": dict, "len": len, "range": range, "enumerate": enumerate, "tuple": tuple,
+                 "list": list, "sorted": sorted, "reversed": reversed, "set": set, "frozenset": frozenset, "min": min, "max": max,
+                 "any": any, "all": all, "sum": sum, "abs": abs, "int": int, "bool": bool, "divmod": divmod, "repr": repr}
+
+
 class Folder(object):
+    """Evaluator for the pure, concrete subset of Python that structure()
+    and the helpers it calls are written in: strings, tuples, lists, dicts,
+    enzyme constants, class constants, calls to module-level functions and to
+    class/static methods through the resolved MRO."""
+
     def __init__(self, program: Program):
         self.p = program
         self.depth = 0
+        self.steps = 0
 
     # -- entry points -------------------------------------------------------
 
     def class_const(self, ci: ClassInfo, name: str):
-        """Value of a class-level constant (cutter, signature, _level ...)."""
         owner, raw = self.p.class_attr_def(ci, name)
         if owner is None:
             raise AnalysisError("%s has no attribute %s" % (ci.qualname, name))
@@ -152,25 +177,48 @@ class Folder(object):
         owner, raw = self.p.class_attr_def(ci, name, after=after)
         if owner is None or not isinstance(raw, FuncInfo):
             raise AnalysisError("%s.%s does not resolve to a function" % (ci.qualname, name))
-        return self.call_func(raw, ci)
+        return self.call_func(raw, ci, [], {})
 
-    def call_func(self, fi: FuncInfo, cls: ClassInfo):
+    def call_func(self, fi: FuncInfo, cls: Optional[ClassInfo], args=(), kwargs=None):
+        kwargs = dict(kwargs or {})
         self.depth += 1
-        if self.depth > 8:
+        if self.depth > 12:
             raise AnalysisError("folder recursion too deep at %s" % fi.qualname)
         try:
-            params = [a.arg for a in fi.node.args.args]
-            env = {}
+            a = fi.node.args
+            params = [x.arg for x in a.posonlyargs + a.args]
+            pos = list(args)
             if fi.kind == "classmethod":
-                if len(params) != 1:
-                    raise AnalysisError("%s: unexpected parameters" % fi.qualname)
-                env[params[0]] = cls
-            elif fi.kind == "staticmethod":
-                if params:
-                    raise AnalysisError("%s: unexpected parameters" % fi.qualname)
-            else:
-                raise AnalysisError("%s: %s is neither classmethod nor staticmethod" % (fi.where(), fi.qualname))
+                pos = [cls] + pos
+            elif fi.kind in ("method", "property"):
+                raise AnalysisError("%s: %s needs an instance: not a constant" % (fi.where(), fi.qualname))
+            env = {}
+            defaults = [None] * (len(params) - len(a.defaults)) + list(a.defaults)
             fr = _Frame(self, fi.module, env, fi.owner, cls)
+            if len(pos) > len(params) and a.vararg is None:
+                raise AnalysisError("%s: too many arguments in constant folding" % fi.qualname)
+            for i, pn in enumerate(params):
+                if i < len(pos):
+                    env[pn] = pos[i]
+                elif pn in kwargs:
+                    env[pn] = kwargs.pop(pn)
+                elif defaults[i] is not None:
+                    env[pn] = fr.expr(defaults[i])
+                else:
+                    raise AnalysisError("%s: missing argument %s in constant folding" % (fi.qualname, pn))
+            if a.vararg is not None:
+                env[a.vararg.arg] = tuple(pos[len(params):])
+            for kw, d in zip(a.kwonlyargs, a.kw_defaults):
+                if kw.arg in kwargs:
+                    env[kw.arg] = kwargs.pop(kw.arg)
+                elif d is not None:
+                    env[kw.arg] = fr.expr(d)
+                else:
+                    raise AnalysisError("%s: missing keyword %s in constant folding" % (fi.qualname, kw.arg))
+            if a.kwarg is not None:
+                env[a.kwarg.arg] = kwargs
+            elif kwargs:
+                raise AnalysisError("%s: unexpected keywords %s in constant folding" % (fi.qualname, sorted(kwargs)))
             try:
                 fr.block(fi.node.body)
             except _Return as r:
@@ -198,8 +246,13 @@ class _Frame(object):
         seg = self.m.segment(node) if self.m is not None else ast.dump(node)
         raise AnalysisError(
             "%s:%s: unsupported %s in constant folding: %s"
-            % (self.m.relpath if self.m else "?", getattr(node, "lineno", "?"), what, seg[:80])
+            % (self.m.relpath if self.m else "?", getattr(node, "lineno", "?"), what, (seg or "")[:80])
         )
+
+    def tick(self, node):
+        self.f.steps += 1
+        if self.f.steps > 2000000:
+            self.unsupported(node, "evaluation budget exceeded at")
 
     # -- statements ---------------------------------------------------------
 
@@ -208,6 +261,7 @@ class _Frame(object):
             self.stmt(st)
 
     def stmt(self, st: ast.stmt):
+        self.tick(st)
         if isinstance(st, ast.Expr):
             if isinstance(st.value, ast.Constant):
                 return
@@ -220,12 +274,55 @@ class _Frame(object):
             for t in st.targets:
                 self.assign(t, v)
             return
+        if isinstance(st, ast.AnnAssign):
+            if st.value is not None:
+                self.assign(st.target, self.expr(st.value))
+            return
+        if isinstance(st, ast.AugAssign):
+            cur = self.expr(_as_load(st.target))
+            val = self.expr(st.value)
+            if isinstance(st.op, ast.Add) and isinstance(cur, list):
+                cur.extend(self.iterate(val, st))  # list += iterable extends in place
+                return
+            self.assign(st.target, self.binop(st.op, cur, val, st))
+            return
         if isinstance(st, ast.If):
-            t = self.expr(st.test)
-            if not isinstance(t, bool):
-                self.unsupported(st.test, "undecidable test")
+            t = self.truth(self.expr(st.test), st.test)
             self.block(st.body if t else st.orelse)
             return
+        if isinstance(st, ast.For):
+            it = self.iterate(self.expr(st.iter), st.iter)
+            broke = False
+            for x in it:
+                self.assign(st.target, x)
+                try:
+                    self.block(st.body)
+                except _Continue:
+                    continue
+                except _Break:
+                    broke = True
+                    break
+            if not broke:
+                self.block(st.orelse)
+            return
+        if isinstance(st, ast.While):
+            n = 0
+            while self.truth(self.expr(st.test), st.test):
+                n += 1
+                if n > 100000:
+                    self.unsupported(st, "unbounded loop")
+                try:
+                    self.block(st.body)
+                except _Continue:
+                    continue
+                except _Break:
+                    return
+            self.block(st.orelse)
+            return
+        if isinstance(st, ast.Break):
+            raise _Break()
+        if isinstance(st, ast.Continue):
+            raise _Continue()
         if isinstance(st, ast.Raise):
             name = "Exception"
             e = st.exc
@@ -236,24 +333,55 @@ class _Frame(object):
             elif isinstance(e, ast.Attribute):
                 name = e.attr
             raise Raises(name, "%s:%d" % (self.m.relpath, st.lineno))
-        if isinstance(st, ast.Pass):
+        if isinstance(st, (ast.Pass, ast.Assert)):
             return
         self.unsupported(st, "statement")
+
+    def truth(self, v, node):
+        if isinstance(v, (bool, int, str, tuple, list, dict, set, frozenset, type(None))):
+            return bool(v)
+        if v is NotImplemented:
+            return True
+        if isinstance(v, (ClassInfo, Enzyme, SeqVal)):
+            return True if not isinstance(v, SeqVal) else bool(v.s)
+        self.unsupported(node, "truth value of %r" % (v,))
+
+    def iterate(self, v, node):
+        if isinstance(v, (str, tuple, list, dict, set, frozenset, range)):
+            return list(v)
+        if isinstance(v, SeqVal):
+            return list(v.s)
+        self.unsupported(node, "iteration over %r" % (v,))
 
     def assign(self, target, v):
         if isinstance(target, ast.Name):
             self.env[target.id] = v
         elif isinstance(target, (ast.Tuple, ast.List)):
-            if not isinstance(v, (tuple, list)) or len(v) != len(target.elts):
+            vals = self.iterate(v, target)
+            if any(isinstance(t, ast.Starred) for t in target.elts) or len(vals) != len(target.elts):
                 self.unsupported(target, "unpacking")
-            for t, x in zip(target.elts, v):
+            for t, x in zip(target.elts, vals):
                 self.assign(t, x)
+        elif isinstance(target, ast.Subscript):
+            obj = self.expr(target.value)
+            if isinstance(obj, (list, dict)) and not isinstance(target.slice, ast.Slice):
+                try:
+                    obj[self.expr(target.slice)] = v
+                except Exception:
+                    self.unsupported(target, "subscript store")
+            elif isinstance(obj, list) and isinstance(target.slice, ast.Slice):
+                lo = self.expr(target.slice.lower) if target.slice.lower else None
+                hi = self.expr(target.slice.upper) if target.slice.upper else None
+                obj[lo:hi] = self.iterate(v, target)
+            else:
+                self.unsupported(target, "subscript store")
         else:
             self.unsupported(target, "assignment target")
 
     # -- expressions --------------------------------------------------------
 
     def expr(self, e: ast.expr):
+        self.tick(e)
         meth = getattr(self, "e_" + type(e).__name__, None)
         if meth is None:
             ok, v = closed_const_eval(e)
@@ -266,10 +394,70 @@ class _Frame(object):
         return e.value
 
     def e_Tuple(self, e):
-        return tuple(self.expr(x) for x in e.elts)
+        return tuple(self._elts(e.elts))
 
     def e_List(self, e):
-        return [self.expr(x) for x in e.elts]
+        return list(self._elts(e.elts))
+
+    def e_Set(self, e):
+        return set(self._elts(e.elts))
+
+    def _elts(self, elts):
+        out = []
+        for x in elts:
+            if isinstance(x, ast.Starred):
+                out.extend(self.iterate(self.expr(x.value), x))
+            else:
+                out.append(self.expr(x))
+        return out
+
+    def e_Dict(self, e):
+        d = {}
+        for k, v in zip(e.keys, e.values):
+            if k is None:
+                d.update(self.expr(v))
+            else:
+                d[self.expr(k)] = self.expr(v)
+        return d
+
+    def _comp(self, e, gens, emit):
+        if not gens:
+            emit()
+            return
+        g = gens[0]
+        for x in self.iterate(self.expr(g.iter), g.iter):
+            self.assign(g.target, x)
+            if all(self.truth(self.expr(c), c) for c in g.ifs):
+                self._comp(e, gens[1:], emit)
+
+    def _scoped(self, fn):
+        saved = dict(self.env)
+        try:
+            return fn()
+        finally:
+            for k in list(self.env):
+                if k not in saved:
+                    del self.env[k]
+            self.env.update(saved)
+
+    def e_ListComp(self, e):
+        out = []
+        self._scoped(lambda: self._comp(e, e.generators, lambda: out.append(self.expr(e.elt))))
+        return out
+
+    e_GeneratorExp = e_ListComp
+
+    def e_SetComp(self, e):
+        return set(self.e_ListComp(e))
+
+    def e_DictComp(self, e):
+        out = {}
+
+        def emit():
+            out[self.expr(e.key)] = self.expr(e.value)
+
+        self._scoped(lambda: self._comp(e, e.generators, emit))
+        return out
 
     def e_JoinedStr(self, e):
         out = []
@@ -289,8 +477,10 @@ class _Frame(object):
             return v
         if isinstance(v, SeqVal):
             return v.s
-        if isinstance(v, (int,)) and not isinstance(v, bool):
+        if isinstance(v, (int, float)) and not isinstance(v, bool):
             return str(v)
+        if isinstance(v, Enzyme):
+            return v.name
         self.unsupported(node, "str() of %r" % (v,))
 
     def e_Name(self, e):
@@ -300,16 +490,19 @@ class _Frame(object):
             return NotImplemented
         if e.id in ("True", "False", "None"):
             return {"True": True, "False": False, "None": None}[e.id]
-        if e.id in ("str", "issubclass", "super", "len", "isinstance"):
+        if self.m is not None:
+            r = self.f.p.lookup(self.m.name, e.id)
+            if r is not None:
+                return self._from_binding(r, e)
+        if e.id in ("str", "issubclass", "super", "isinstance", "format", "next", "iter", "hasattr", "getattr", "type") or e.id in PURE_BUILTINS:
             return _Bound("builtin", None, e.id)
-        if self.m is None:
-            self.unsupported(e, "name")
-        r = self.f.p.lookup(self.m.name, e.id)
-        return self._from_binding(r, e)
+        self.unsupported(e, "name")
 
     def _from_binding(self, r, node):
-        if isinstance(r, ClassInfo) or isinstance(r, ModRef):
+        if isinstance(r, (ClassInfo, ModRef)):
             return r
+        if isinstance(r, FuncInfo):
+            return _Bound("func", (r, None), r.name)
         if isinstance(r, Ext):
             d = r.dotted
             if d.startswith("Bio.Restriction."):
@@ -320,6 +513,10 @@ class _Frame(object):
                     self.unsupported(node, "unknown enzyme %s" % name)
             if d in ("Bio.Seq.Seq",):
                 return _Bound("builtin", None, "Seq")
+            if d == "Bio.Seq.reverse_complement":
+                return _Bound("builtin", None, "reverse_complement")
+            if d in ("itertools.chain",):
+                return _Bound("builtin", None, "chain")
             self.unsupported(node, "external name %s" % d)
         if isinstance(r, tuple) and r and r[0] == "assign":
             _, mod, val = r
@@ -334,12 +531,19 @@ class _Frame(object):
         base = self.expr(e.value)
         a = e.attr
         if isinstance(base, ModRef):
-            return self._from_binding(self.f.p.lookup(base.name, a), e)
+            r = self.f.p.lookup(base.name, a)
+            if r is None:
+                self.unsupported(e, "module attribute")
+            return self._from_binding(r, e)
         if isinstance(base, ClassInfo):
             owner, raw = self.f.p.class_attr_def(base, a)
             if owner is None:
                 if a == "__name__":
                     return base.name
+                if a == "__qualname__":
+                    return base.name
+                if a == "__module__":
+                    return base.module.name if base.module else "<synthetic>"
                 self.unsupported(e, "attribute")
             return self.f._attr_value(owner, raw, base)
         if isinstance(base, _Super):
@@ -352,85 +556,128 @@ class _Frame(object):
                 return getattr(base.obj, a)
             if a in ENZYME_METHODS:
                 return _Bound("enzyme", base, a)
+            if a == "__name__":
+                return base.name
             self.unsupported(e, "enzyme attribute")
         if isinstance(base, str):
-            if a in ("replace", "format", "join", "upper", "lower", "strip", "translate"):
-                return _Bound("str", base, a)
+            if a in SAFE_STR_METHODS:
+                return _Bound("native", base, a)
             self.unsupported(e, "str method")
+        if isinstance(base, list) and a in SAFE_LIST_METHODS:
+            return _Bound("native", base, a)
+        if isinstance(base, dict) and a in SAFE_DICT_METHODS:
+            return _Bound("native", base, a)
+        if isinstance(base, tuple) and a in SAFE_TUPLE_METHODS:
+            return _Bound("native", base, a)
         if isinstance(base, SeqVal):
             if a in ("reverse_complement", "complement", "upper", "lower"):
                 return _Bound("seq", base, a)
             self.unsupported(e, "Seq method")
+        if isinstance(base, _Bound) and base.kind == "builtin" and base.name == "str" and a in ("maketrans", "join", "format"):
+            return _Bound("strstatic", None, a)
         self.unsupported(e, "attribute base %r" % (base,))
 
     def e_BinOp(self, e):
-        l, r = self.expr(e.left), self.expr(e.right)
-        if isinstance(e.op, ast.Add):
-            if isinstance(l, str) and isinstance(r, str):
-                return l + r
-            if isinstance(l, (tuple, list)) and type(l) is type(r):
-                return l + r
-            if isinstance(l, int) and isinstance(r, int):
-                return l + r
-        if isinstance(e.op, ast.Mult):
-            if isinstance(l, str) and isinstance(r, int):
-                return l * r
-            if isinstance(l, int) and isinstance(r, (str, int)):
-                return l * r
-        if isinstance(e.op, ast.Sub) and isinstance(l, int) and isinstance(r, int):
-            return l - r
-        if isinstance(e.op, ast.Mod) and isinstance(l, str):
+        return self.binop(e.op, self.expr(e.left), self.expr(e.right), e)
+
+    def binop(self, op, l, r, node):
+        if isinstance(l, SeqVal) and isinstance(op, ast.Add):
+            l = l.s
+        if isinstance(r, SeqVal) and isinstance(op, ast.Add):
+            r = r.s
+        native = (str, int, tuple, list)
+        if isinstance(l, native) and isinstance(r, native) and not isinstance(l, bool) and not isinstance(r, bool):
             try:
-                return l % r
+                if isinstance(op, ast.Add):
+                    return l + r
+                if isinstance(op, ast.Mult):
+                    return l * r
+                if isinstance(op, ast.Sub):
+                    return l - r
+                if isinstance(op, ast.Mod):
+                    return l % r
+                if isinstance(op, ast.FloorDiv):
+                    return l // r
             except Exception:
-                self.unsupported(e, "%-format")
-        self.unsupported(e, "binary operation")
+                self.unsupported(node, "binary operation")
+        if isinstance(op, ast.Mod) and isinstance(l, str):
+            try:
+                return l % (r.s if isinstance(r, SeqVal) else r)
+            except Exception:
+                self.unsupported(node, "%-format")
+        self.unsupported(node, "binary operation on %r and %r" % (l, r))
 
     def e_UnaryOp(self, e):
         v = self.expr(e.operand)
-        if isinstance(e.op, ast.Not) and isinstance(v, bool):
-            return not v
+        if isinstance(e.op, ast.Not):
+            return not self.truth(v, e)
         if isinstance(e.op, ast.USub) and isinstance(v, int):
             return -v
+        if isinstance(e.op, ast.UAdd) and isinstance(v, int):
+            return v
         self.unsupported(e, "unary operation")
 
     def e_BoolOp(self, e):
-        vals = [self.expr(v) for v in e.values]
-        if not all(isinstance(v, bool) for v in vals):
-            self.unsupported(e, "boolean operation")
-        return all(vals) if isinstance(e.op, ast.And) else any(vals)
+        if isinstance(e.op, ast.And):
+            v = True
+            for x in e.values:
+                v = self.expr(x)
+                if not self.truth(v, x):
+                    return v
+            return v
+        v = False
+        for x in e.values:
+            v = self.expr(x)
+            if self.truth(v, x):
+                return v
+        return v
 
     def e_Compare(self, e):
         left = self.expr(e.left)
-        res = True
         for op, c in zip(e.ops, e.comparators):
             right = self.expr(c)
-            if isinstance(op, ast.Is):
-                r = left is right or (isinstance(left, Enzyme) and left == right)
-            elif isinstance(op, ast.IsNot):
-                r = not (left is right or (isinstance(left, Enzyme) and left == right))
-            elif isinstance(op, (ast.Eq, ast.NotEq)):
-                if not isinstance(left, (str, int, tuple, Enzyme, type(None))) or not isinstance(
-                    right, (str, int, tuple, Enzyme, type(None))
-                ):
-                    self.unsupported(e, "comparison")
-                r = (left == right) if isinstance(op, ast.Eq) else (left != right)
-            elif isinstance(op, (ast.Lt, ast.LtE, ast.Gt, ast.GtE)) and isinstance(left, int) and isinstance(right, int):
-                r = {ast.Lt: left < right, ast.LtE: left <= right, ast.Gt: left > right, ast.GtE: left >= right}[type(op)]
+            if isinstance(op, (ast.Is, ast.IsNot)):
+                same = left is right or (isinstance(left, Enzyme) and left == right) or (
+                    isinstance(left, (bool, type(None))) and left is right)
+                r = same if isinstance(op, ast.Is) else not same
+            elif isinstance(op, (ast.In, ast.NotIn)):
+                if isinstance(right, SeqVal):
+                    right = right.s
+                if isinstance(left, SeqVal):
+                    left = left.s
+                try:
+                    r = (left in right) if isinstance(op, ast.In) else (left not in right)
+                except Exception:
+                    self.unsupported(e, "membership test")
             else:
-                self.unsupported(e, "comparison")
-            res = res and r
+                lv = left.s if isinstance(left, SeqVal) else left
+                rv = right.s if isinstance(right, SeqVal) else right
+                ok_types = (str, int, tuple, list, Enzyme, type(None), bool, dict)
+                if not isinstance(lv, ok_types) or not isinstance(rv, ok_types):
+                    if isinstance(op, (ast.Eq, ast.NotEq)) and (lv is NotImplemented or rv is NotImplemented or isinstance(lv, ClassInfo) or isinstance(rv, ClassInfo)):
+                        r = (lv is rv) if isinstance(op, ast.Eq) else (lv is not rv)
+                        if not r:
+                            return False
+                        left = right
+                        continue
+                    self.unsupported(e, "comparison")
+                try:
+                    r = {ast.Eq: lambda: lv == rv, ast.NotEq: lambda: lv != rv, ast.Lt: lambda: lv < rv, ast.LtE: lambda: lv <= rv,
+                         ast.Gt: lambda: lv > rv, ast.GtE: lambda: lv >= rv}[type(op)]()
+                except Exception:
+                    self.unsupported(e, "comparison")
+            if not r:
+                return False
             left = right
-        return res
+        return True
 
     def e_IfExp(self, e):
-        t = self.expr(e.test)
-        if not isinstance(t, bool):
-            self.unsupported(e.test, "undecidable test")
-        return self.expr(e.body if t else e.orelse)
+        return self.expr(e.body if self.truth(self.expr(e.test), e.test) else e.orelse)
 
     def e_Subscript(self, e):
         base = self.expr(e.value)
+        if isinstance(base, SeqVal):
+            base = base.s
         if isinstance(e.slice, ast.Slice):
             if not isinstance(base, (str, tuple, list)):
                 self.unsupported(e, "slice")
@@ -441,15 +688,14 @@ class _Frame(object):
                 self.unsupported(e, "slice bounds")
             return base[lo:hi:st]
         idx = self.expr(e.slice)
-        if isinstance(base, (str, tuple, list)) and isinstance(idx, int):
+        if isinstance(base, (str, tuple, list, dict)):
             try:
                 return base[idx]
-            except IndexError:
-                self.unsupported(e, "index out of range")
+            except Exception:
+                self.unsupported(e, "subscript out of range / missing key")
         self.unsupported(e, "subscript")
 
     def e_Call(self, e):
-        # super() without arguments
         if isinstance(e.func, ast.Name) and e.func.id == "super" and "super" not in self.env:
             if e.keywords:
                 self.unsupported(e, "super() keywords")
@@ -463,49 +709,39 @@ class _Frame(object):
                     return _Super(a, c)
             self.unsupported(e, "super() form")
         fn = self.expr(e.func)
-        if any(isinstance(a, ast.Starred) for a in e.args):
-            self.unsupported(e, "star-args")
-        args = [self.expr(a) for a in e.args]
+        args = self._elts(e.args)
         kwargs = {}
         for k in e.keywords:
             if k.arg is None:
-                self.unsupported(e, "**kwargs")
-            kwargs[k.arg] = self.expr(k.value)
+                kwargs.update(self.expr(k.value))
+            else:
+                kwargs[k.arg] = self.expr(k.value)
         if not isinstance(fn, _Bound):
             self.unsupported(e, "call")
         if fn.kind == "func":
             fi, cls = fn.target
-            if args or kwargs:
-                self.unsupported(e, "call with arguments")
-            return self.f.call_func(fi, cls)
+            return self.f.call_func(fi, cls, args, kwargs)
         if fn.kind == "enzyme":
             if args or kwargs:
                 self.unsupported(e, "enzyme method arguments")
             return getattr(fn.target.obj, fn.name)()
-        if fn.kind == "str":
-            s = fn.target
-            if kwargs and fn.name != "format":
-                self.unsupported(e, "keyword arguments")
-            if fn.name == "replace":
-                if len(args) not in (2, 3) or not all(isinstance(a, str) for a in args[:2]):
-                    self.unsupported(e, "str.replace arguments")
-                return s.replace(*args)
-            if fn.name == "format":
-                a2 = [self._fmt(a, e) for a in args]
-                k2 = {k: self._fmt(v, e) for k, v in kwargs.items()}
-                try:
-                    return s.format(*a2, **k2)
-                except Exception:
-                    self.unsupported(e, "str.format")
+        if fn.kind == "native":
+            a2 = [x.s if isinstance(x, SeqVal) else x for x in args]
+            k2 = {k: (v.s if isinstance(v, SeqVal) else v) for k, v in kwargs.items()}
             if fn.name == "join":
-                if len(args) != 1 or not isinstance(args[0], (list, tuple)):
-                    self.unsupported(e, "str.join argument")
-                return s.join(self._str(x, e) if not isinstance(x, str) else x for x in args[0])
-            if fn.name in ("upper", "lower", "strip") and not args:
-                return getattr(s, fn.name)()
-            if fn.name == "translate" and len(args) == 1 and isinstance(args[0], dict) and not kwargs:
-                return s.translate(args[0])
-            self.unsupported(e, "str method")
+                a2 = [[self._str(x, e) for x in self.iterate(a2[0], e)]] if a2 else a2
+            try:
+                r = getattr(fn.target, fn.name)(*a2, **k2)
+            except Exception as ex:
+                self.unsupported(e, "%s.%s raised %s:" % (type(fn.target).__name__, fn.name, type(ex).__name__))
+            if isinstance(r, (type({}.items()), type({}.keys()), type({}.values()))):
+                r = list(r)
+            return r
+        if fn.kind == "strstatic":
+            try:
+                return getattr(str, fn.name)(*args, **kwargs)
+            except Exception:
+                self.unsupported(e, "str.%s" % fn.name)
         if fn.kind == "seq":
             if args or kwargs:
                 self.unsupported(e, "Seq method arguments")
@@ -516,24 +752,69 @@ class _Frame(object):
                 return SeqVal(_rc(s)[::-1])
             return SeqVal(getattr(s, fn.name)())
         if fn.kind == "builtin":
-            if fn.name == "str" and len(args) == 1 and not kwargs:
+            n = fn.name
+            if n in ("str", "format") and len(args) == 1 and not kwargs:
                 return self._str(args[0], e)
-            if fn.name == "Seq" and len(args) == 1 and not kwargs:
+            if n == "str" and not args:
+                return ""
+            if n == "Seq" and len(args) == 1 and not kwargs:
                 return SeqVal(self._str(args[0], e))
-            if fn.name == "len" and len(args) == 1 and isinstance(args[0], (str, tuple, list)):
-                return len(args[0])
-            if fn.name == "issubclass" and len(args) == 2:
+            if n == "reverse_complement" and len(args) == 1:
+                return _rc(self._str(args[0], e))
+            if n == "chain":
+                out = []
+                for a in args:
+                    out.extend(self.iterate(a, e))
+                return out
+            if n == "next" and args:
+                seq = self.iterate(args[0], e)
+                if seq:
+                    return seq[0]
+                if len(args) > 1:
+                    return args[1]
+                self.unsupported(e, "next() of an empty sequence")
+            if n == "iter" and len(args) == 1:
+                return self.iterate(args[0], e)
+            if n == "issubclass" and len(args) == 2:
                 c, o = args
                 if isinstance(c, ClassInfo):
                     others = o if isinstance(o, tuple) else (o,)
                     if all(isinstance(x, ClassInfo) for x in others):
                         return any(self.f.p.is_subclass(c, x) for x in others)
+            if n == "isinstance" and len(args) == 2 and not isinstance(args[0], (ClassInfo, Enzyme, SeqVal, _Bound)):
+                names = {"str": str, "int": int, "tuple": tuple, "list": list, "dict": dict}
+                t = args[1]
+                ts = t if isinstance(t, tuple) else (t,)
+                if all(isinstance(x, _Bound) and x.kind == "builtin" and x.name in names for x in ts):
+                    return isinstance(args[0], tuple(names[x.name] for x in ts))
+            if n == "type" and len(args) == 1 and isinstance(args[0], ClassInfo):
+                return _Bound("builtin", None, "type")
+            if n == "hasattr" and len(args) == 2 and isinstance(args[0], ClassInfo) and isinstance(args[1], str):
+                return self.f.p.class_attr_def(args[0], args[1])[0] is not None
+            if n == "getattr" and len(args) in (2, 3) and isinstance(args[0], ClassInfo) and isinstance(args[1], str):
+                owner, raw = self.f.p.class_attr_def(args[0], args[1])
+                if owner is None:
+                    if len(args) == 3:
+                        return args[2]
+                    self.unsupported(e, "getattr of a missing attribute")
+                return self.f._attr_value(owner, raw, args[0])
+            if n in PURE_BUILTINS:
+                a2 = [x.s if isinstance(x, SeqVal) else x for x in args]
+                if all(isinstance(x, (str, int, tuple, list, dict, set, frozenset, range, type(None))) for x in a2):
+                    try:
+                        r = PURE_BUILTINS[n](*a2, **kwargs)
+                    except Exception:
+                        self.unsupported(e, "builtin call")
+                    if n in ("zip", "enumerate", "reversed", "range"):
+                        r = list(r)
+                    return r
             self.unsupported(e, "builtin call")
         self.unsupported(e, "call")
 
-    def _fmt(self, v, node):
-        if isinstance(v, SeqVal):
-            return v.s
-        if isinstance(v, (str, int)):
-            return v
-        self.unsupported(node, "format argument %r" % (v,))
+
+def _as_load(t):
+    import copy
+
+    t2 = copy.copy(t)
+    t2.ctx = ast.Load()
+    return t2
